@@ -4,9 +4,9 @@ package main
 
 import (
 	"encoding/json"
-	"math"
 	"fmt"
 	"go/types"
+	"math"
 	"os"
 	"os/exec"
 	"path/filepath"
